@@ -16,7 +16,7 @@ import (
 
 func init() { Registry["C01"] = runC01 }
 
-const explanationC01 = "Decides structural necessary conditions of C01 on the mechanisms its anchors name: (R01.1) every identifier computed by Goify passes the reserved-word escape, which consults Go keywords, predeclared identifiers and the package table; (R01.2) name allocation registers what it returns — every name returned by NameScope.Unique is recorded in the scope's table with the returned value, and HashedUnique looks up and stores under the same hash key the name it returns; (R01.3) validation templates never print a key that may be absent (shared with C04/R04.3–R04.4); (R01.4) every Go file reported as written was parsed and formatted and the write pipeline's errors are not swallowed (shared with C09/R09.4–R09.7); (R01.5) example generation never divides by a length difference that can be zero (a strict comparison dominates the modulo); (R01.6) once a validator prepares a type-resolved copy of a mapped attribute, its kind checks walk that copy and not the unresolved original; (R01.7) local variable names of generated code are allocated through the name scope in the HTTP/gRPC data builders; (R01.8) generator-wide lints whose violations yield crashes or duplicate/uncompilable output — stale search flags and per-iteration variables, seen-sets keyed inconsistently, recursion guards dropped, slices reused across iterations, range bodies of templates ignoring their element; (R01.9) the conversion templates cast with the Go type of their branch (shared with C02/R02.3); (R01.10) bytes and any are singled out together wherever a primitive's pointer-ness is decided; (R01.11) the HTTP type builder flattens primitive aliases completely (visited or not, alias of alias, validation merged into the attribute); (R01.12) conversion partials receive the name they define and the name they read in that order; (R01.13) the identifiers of the request builder's fixed text are reserved in the scope that names its path-parameter variables; (R01.14) the validator and the finalizer inherit security requirements in the same order. NOT decided: type-correctness of the generated packages for all designs (needs the generator to run and go/types on its output — translation validation, another family)."
+const explanationC01 = "Decides structural necessary conditions of C01 on the mechanisms its anchors name: (R01.1) every identifier computed by Goify passes the reserved-word escape, which consults Go keywords, predeclared identifiers and the package table; (R01.2) name allocation registers what it returns — every name returned by NameScope.Unique is recorded in the scope's table with the returned value, and HashedUnique looks up and stores under the same hash key the name it returns; (R01.3) validation templates never print a key that may be absent (shared with C04/R04.3–R04.4); (R01.4) every Go file reported as written was parsed and formatted and the write pipeline's errors are not swallowed (shared with C09/R09.4–R09.7); (R01.5) example generation never divides by a length difference that can be zero (a strict comparison dominates the modulo); (R01.6) once a validator prepares a type-resolved copy of a mapped attribute, its kind checks walk that copy and not the unresolved original; (R01.7) local variable names of generated code are allocated through the name scope in the HTTP/gRPC data builders; (R01.8) generator-wide lints whose violations yield crashes or duplicate/uncompilable output — stale search flags and per-iteration variables, seen-sets keyed inconsistently, recursion guards dropped, slices reused across iterations, range bodies of templates ignoring their element; (R01.9) the conversion templates cast with the Go type of their branch (shared with C02/R02.3); (R01.10) bytes and any are singled out together wherever a primitive's pointer-ness is decided; (R01.11) the HTTP type builder flattens primitive aliases completely (visited or not, alias of alias, validation merged into the attribute); (R01.12) conversion partials receive the name they define and the name they read in that order; (R01.13) the identifiers of the request builder's fixed text are reserved in the scope that names its path-parameter variables; (R01.14) the validator and the finalizer inherit security requirements in the same order; (R01.15) no generator function is handed a nil map that it stores into on a path the call can reach (the conditions that dominate the store, rewritten with the call's arguments, are contradicted at the call). NOT decided: type-correctness of the generated packages for all designs (needs the generator to run and go/types on its output — translation validation, another family)."
 
 func runC01(c *an.Ctx) string {
 	r011Goify(c)
@@ -33,6 +33,7 @@ func runC01(c *an.Ctx) string {
 	conversionRolesRule(c, "R01.12", "http/codegen/templates")
 	aliasFlattening(c, "R01.11")
 	r0113ReservedLocals(c, "R01.13")
+	r0115NilMapArgs(c, "R01.15")
 	r067InheritanceAgreement(c, "R01.14") // accepted designs are generated with the requirements they were validated against // an unflattened alias leaves validation code written for the primitive on a user type
 	return explanationC01
 }
@@ -615,4 +616,23 @@ func r0113ReservedLocals(c *an.Ctx, rule string) {
 	sort.Strings(missing)
 	c.Check(len(missing) == 0, rule, f.Name+"#builder scope", f.Decl.Pos(), fmt.Sprintf("the %d identifiers the request builder's fixed text declares or qualifies with are all reserved in the scope that names its path-parameter variables", len(declared)),
 		"the request builder's fixed text declares or uses "+strings.Join(missing, ", ")+" but the scope that names its path-parameter variables does not reserve them: a path parameter with one of these names shadows it and the generated client does not compile")
+}
+
+// r0115NilMapArgs (R01.15): a generator function that memoises into a map parameter panics ("assignment to
+// entry in nil map") when a caller passes nil and the store is reachable for that call; the design was accepted,
+// generation crashes.
+func r0115NilMapArgs(c *an.Ctx, rule string) {
+	stores, hits := c.NilMapArgs(genDirs)
+	for _, h := range hits {
+		construct := fmt.Sprintf("%s#nil→%s(%s)", c.RefName(h.Caller), h.Callee.Obj.Name(), h.Param)
+		for _, key := range c.SiteKeys(h.Caller, h.Call) {
+			construct = strings.Replace(key, "#", "#nil-map:", 1)
+			break
+		}
+		c.Failf(rule, construct, h.Call.Pos(), "nil is passed for map parameter %s of %s, which stores into it at %s on a path this call can reach: generation panics with \"assignment to entry in nil map\"", h.Param, h.Callee.Name, c.Position(h.Store.Pos()))
+	}
+	if len(hits) == 0 {
+		c.Okf(rule, "generator packages#nil-map-arguments", "%d unguarded stores into map parameters; no call that passes nil for one can reach the store", stores)
+	}
+	c.Floor(rule, stores, 3, "unguarded stores into map parameters in generator packages")
 }
